@@ -85,6 +85,7 @@ type ContractSet struct {
 	Axioms []*Lemma                   // assumed
 	Lemmas []*Lemma                   // proved
 	Ghosts []*GhostVar
+	Tables []*GhostVar // ginv_table directives, expanded by Engine.ExpandTables
 	GInvs  []*Lemma // package-level invariants of globals: proved of the package initialiser, assumed elsewhere
 	Files  []string
 }
@@ -102,7 +103,7 @@ func NewContractSet() *ContractSet {
 var clauseKW = map[string]bool{"requires": true, "ensures": true, "invariant": true, "decreases": true, "assigns": true,
 	"pure": true, "noreturn": true, "panics_if": true, "assume": true, "at": true, "option": true}
 var topKW = map[string]bool{"func": true, "trusted": true, "interface": true, "loop": true, "spec": true, "pred": true,
-	"ufunc": true, "axiom": true, "lemma": true, "ghost": true, "ginv": true}
+	"ufunc": true, "axiom": true, "lemma": true, "ghost": true, "ginv": true, "ginv_table": true}
 
 var labelRe = regexp.MustCompile(`^\[([A-Za-z0-9_.-]+)\]\s*`)
 
@@ -187,7 +188,10 @@ func (cs *ContractSet) LoadFile(path, pkgPath string) error {
 			cs.Funcs[key] = curF
 		case "loop":
 			curF = nil
-			name, ord, ok := strings.Cut(rest, "#")
+			name, ord, ok := rest, "", false
+			if k := strings.LastIndex(rest, "#"); k >= 0 {
+				name, ord, ok = rest[:k], rest[k+1:], true
+			}
 			n, err := strconv.Atoi(ord)
 			if !ok || err != nil {
 				return fmt.Errorf("%s:%d: loop key must be func#n", path, it.line)
@@ -213,6 +217,9 @@ func (cs *ContractSet) LoadFile(path, pkgPath string) error {
 				return fmt.Errorf("%s:%d: ghost <name> <type>", path, it.line)
 			}
 			cs.Ghosts = append(cs.Ghosts, &GhostVar{Name: name, Type: strings.TrimSpace(ty), Pkg: pkgPath, File: path, Line: it.line})
+		case "ginv_table":
+			curF, curL = nil, nil
+			cs.Tables = append(cs.Tables, &GhostVar{Name: rest, Pkg: pkgPath, File: path, Line: it.line})
 		case "axiom", "lemma", "ginv":
 			curF, curL = nil, nil
 			name, body, ok := strings.Cut(rest, ":=")
